@@ -42,13 +42,13 @@ CHECKS = {
                 text="for 8-12 operator pipelines x 5-7 (semiring, fold, optimize) configurations: BFS over all histories (depth 2 quick / 3 thorough) of in-place updates, SGD steps through a derived circuit, resets, state-dict loads and derived-circuit resets; every history replayed on freshly compiled real objects; in every state (evaluated with and without autograd; a subset of configurations with all circuits in eval mode) each derived circuit must equal its definitional oracle at the parameter values read back from the operand and own no learnable tensor",
                 note="deterministic events; oracle = numpy reference of the operand + operator definition"),
     "C11": dict(level="exploration", engine="E1", tech=E1, design="3/C11",
-                text="compiled circuits of the alphabet with exp-family inputs x 8 configurations x ALL mask matrices for batch sizes 1..3 (tensor format), all single scopes, all per-sample scope lists for B=2, plus every rejection case; per sample compared with a brute-force sum / quadrature of the reference over exactly the masked variables",
+                text="compiled circuits of the alphabet with exp-family inputs x 8 configurations x ALL mask matrices for batch sizes 1..3 (tensor format), all single scopes, all per-sample scope lists for B=2, probability tables with exact zeros with every row of the domain as placeholder, plus every rejection case; per sample compared with a brute-force sum / quadrature of the reference over exactly the masked variables",
                 note="Gaussian circuits with <= 2 variables; masks set True only in scope columns"),
     "C12": dict(level="exploration", engine="E1", tech=E1 + "; plus " + E2 + " for the training-history clause", design="3/C12",
                 text="every template (region graphs of all algorithms incl. the two smallest with side-by-side mixing layers x cp/cp-t/tucker x input layer x units x classes x mixing/dense, image_data, tabular_data, hmm, fully_factorized, cp, tucker with softmax parameterisations) compiled under 8 configurations; generic and extreme (+-30) values of the unconstrained tensors; Z by brute force over the complete domain (quadrature / symbolic integrate where stated) must be 1 per output unit, values >= 0, log-space values finite; BFS over {SGD step, reset, +-30 update} histories on representatives",
                 note="256-state image defaults use the compiled integrate circuit (validated by C03)"),
     "C13": dict(level="exploration", engine="E1", tech=E1, design="3/C13",
-                text="circuits of the alphabet x valuation kinds incl. exact zeros x 3 semirings x 4 flags: autograd gradients mapped back to symbolic tensors compared across flags (1e-9), with central finite differences of the numpy reference (1e-5), likewise for continuous inputs; finiteness per (row, output unit) on the zero valuations",
+                text="circuits of the alphabet x valuation kinds incl. exact zeros x 3 semirings x 4 flags: autograd gradients mapped back to symbolic tensors compared across flags (1e-9), with central finite differences of the numpy reference (1e-5), likewise for continuous inputs, and across semirings (1e-8 relative, also on a valuation with sum weights ~1e-7); finiteness per (row, output unit) on the zero valuations",
                 note="finite differences decide correctness only to 1e-5; three known findings at exact zeros are listed in known_findings.json"),
     "C14": dict(level="exploration", engine="E1", tech=E1, design="3/C14",
                 text="every parameter node type x every input shape of rank 1..3 over dims {1,2,3} x every axis (positive and negative) x fold count 1..3 through the compiler's own parameter folding, all 2-node compositions and the operator chains, optimize rewrites for every (outer axis, reduce axis): declared shape == compiled shape == computed shape and every fold slice equals the numpy definition",
